@@ -24,7 +24,7 @@ fn main() {
     let args: Vec<String> = std::env::args().collect();
     let mode = args.get(1).map(|s| s.as_str()).unwrap_or("");
     match mode {
-        "--resolver" => {
+        "--resolver" | "--resolver-cf" => {
             // --resolver <address> iface=address ...
             let table: Vec<(String, String)> = args[3..]
                 .iter()
@@ -33,7 +33,7 @@ fn main() {
                     (a[..i].to_string(), a[i + 1..].to_string())
                 })
                 .collect();
-            let svc = varlink::VarlinkService::new("rv", "rp", "1", "ru", vec![Box::new(ResolverIface { table }) as Box<dyn varlink::Interface + Send + Sync>]);
+            let svc = varlink::VarlinkService::new("rv", "rp", "1", "ru", vec![Box::new(ResolverIface { table, explicit_final: mode == "--resolver-cf" }) as Box<dyn varlink::Interface + Send + Sync>]);
             let _ = varlink::listen(svc, &args[2], &varlink::ListenConfig { idle_timeout: 300, ..Default::default() });
         }
         "--listen-one" | "--listen-one1" => {
